@@ -66,6 +66,84 @@ def oracle(case, impl, model):
     return None
 
 
+# ---------------------------------------------------------------------------------------------
+# recursive and forwarding mode (resolver stream; cases from vlib/netgen.py)
+# ---------------------------------------------------------------------------------------------
+
+def repeated(rrs):
+    seen = set()
+    for x in rrs:
+        if x in seen:
+            return x
+        seen.add(x)
+    return None
+
+
+def net_oracle(case, impl):
+    """C10 on the implementation's output of one network-mode case.  Every question: the resolution completes
+    (the driver survives: no hang, no stack overflow), within 60 s of virtual time.  Every successful reply: no record
+    twice; for a question type other than CNAME/ANY the records satisfy chain_ok.  In forwarding mode the last two are
+    judged only when every answer the forwarder gave during the resolution is itself repetition-free and in chain
+    order (what the forwarder says is passed on as it is: deviation D6)."""
+    from . import netgen, resolvergen as rg
+    from . import tok
+    if impl.startswith("DRIVER-DIED"):
+        return ("no-completion", "the resolution did not complete (the driver died: hang, stack overflow or abort)")
+    if impl == "Panic":
+        return ("panic", "the resolver panicked")
+    try:
+        c = rg.Case(case)
+        parsed = rg.parse_result(impl)
+        if parsed is None:
+            return None
+        results, _ = parsed
+        fwd = c.forwarder()
+        for (qn, qt, qc), r in zip(c.questions, results):
+            what = "%s type %d" % (rg.tokname(qn), qt)
+            if r.kind in ("Panic", "OutOfFuel"):
+                return ("panic", "%s: the resolver panicked" % what)
+            if r.elapsed > 60001:
+                return ("over-budget", "%s: took %d ms of virtual time" % (what, r.elapsed))
+            if r.kind not in ("A", "N"):
+                continue
+            if fwd is not None:
+                said = netgen.forwarder_answers(c)
+                ordered = True
+                for e in r.log:
+                    if e.qname is None:
+                        continue
+                    ans = said.get(tok.question(e.qname, e.qtype, e.qclass))
+                    if ans is not None and (repeated(ans) or rg.chain_ok(e.qname, e.qtype, ans)):
+                        ordered = False
+                if not ordered:
+                    continue
+            x = repeated(r.rrs)
+            if x:
+                return ("repeated-record", "%s: the reply holds %s twice" % (what, x))
+            why = rg.chain_ok(qn, qt, r.rrs)
+            if why:
+                return ("chain-broken", "%s: %s" % (what, why))
+    except Exception:      # malformed output is a correspondence matter
+        return None
+    return None
+
+
+def net_nontrivial(case, model):
+    from . import resolvergen as rg
+    from . import tok
+    p = rg.parse_result(model)
+    if p is None:
+        return False
+    c = rg.Case(case)
+    return any(qt not in (CNAME, ANY) and r.kind in ("A", "N") and any(tok.parse_rr(x)["type"] == CNAME for x in r.rrs)
+               for (qn, qt, qc), r in zip(c.questions, p[0]))
+
+
+def extra(ctx):
+    from . import netgen
+    return netgen.run(ctx, ID, net_oracle, net_nontrivial)
+
+
 def nontrivial(case, model):
     try:
         _, _, questions = g.parse_case(case)
